@@ -327,18 +327,34 @@ class Directive:
         self.contract = ''
 
 
-def expand(path, seen=None):
-    """template text with `//@@ include <name>` lines replaced by units/inc/<name>.rs (recursively, once each)"""
+def expand(path, seen=None, defs=None):
+    """template text with `//@@ include <name>` lines replaced by units/inc/<name>.rs (recursively, once each);
+    `//@@ define X`, `//@@ ifdef X` .. `//@@ endif` select optional parts"""
     seen = seen if seen is not None else set()
+    defs = defs if defs is not None else set()
     out = []
+    skip = 0
     for ln in open(path).read().split('\n'):
         st = ln.strip()
+        if st.startswith('//@@ ifdef '):
+            if skip or st.split()[2] not in defs:
+                skip += 1
+            continue
+        if st == '//@@ endif':
+            if skip:
+                skip -= 1
+            continue
+        if skip:
+            continue
+        if st.startswith('//@@ define '):
+            defs.add(st.split()[2])
+            continue
         if st.startswith('//@@ include '):
             name = st.split()[2]
             if name in seen:
                 continue
             seen.add(name)
-            out.append(expand(os.path.join(VERIF, 'units', 'inc', name + '.rs'), seen))
+            out.append(expand(os.path.join(VERIF, 'units', 'inc', name + '.rs'), seen, defs))
         else:
             out.append(ln)
     return '\n'.join(out)
@@ -381,7 +397,7 @@ def parse_template(path):
                     if not w:
                         raise GenError('%s:%d empty directive' % (path, i + 1))
                     if w[0] == 'rw':
-                        cur_rw = {'rule': w[1], 'ordinal': int(w[2][1:]) if len(w) > 2 and w[2].startswith('#') else None}
+                        cur_rw = {'rule': w[1], 'ordinal': (0 if w[2] == '#*' else int(w[2][1:])) if len(w) > 2 and w[2].startswith('#') else None}
                         mode = 'rw_old'
                     elif w[0] == 'closure':
                         cur_rw = {'rule': 'R5c', 'ordinal': int(w[1][1:]) if len(w) > 1 and w[1].startswith('#') else None}
@@ -470,6 +486,23 @@ def _cfg_disabled(pre):
 
 def apply_rws(text, d, log):
     for rw in d.rws:
+        if rw['ordinal'] == 0:
+            # every occurrence (at least one)
+            n = 0
+            pos = 0
+            while True:
+                try:
+                    a, b = find_span(text[pos:], rw['old'], 1, 'rewrite site (%s)' % rw['rule'])
+                except GenError:
+                    break
+                new = rw['new'].strip()
+                log.append((rw['rule'], strip_ws(text[pos + a:pos + b]), strip_ws(new)))
+                text = text[:pos + a] + new + text[pos + b:]
+                pos = pos + a + len(new)
+                n += 1
+            if n == 0:
+                raise GenError('rewrite site (%s) not found: %r' % (rw['rule'], rw['old'].strip()[:120]))
+            continue
         a, b = find_span(text, rw['old'], rw['ordinal'], 'rewrite site (%s)' % rw['rule'])
         new = rw['new'].strip('\n')
         if rw['rule'].endswith('b') and rw['rule'] != 'R5c' and '@@BODY' in new:
